@@ -96,8 +96,25 @@ def _work(args):
             layouts.append(how)
     route = rng.choice(['run', 'run', 'chunk', 'metar'])
     p = copy.deepcopy(prms)
+    if rng.random() < 0.4:
+        # values as they come out of arrays and tables: NumPy scalars (the caller keeps working with them afterwards)
+        p = scenes.numpy_typed(p, rng)
     fp_before, g_before = frame_fingerprint(df), sysworld.tree(dynamic.AMPYCLOUD_PRMS)
-    p_before = sysworld.observe('x', [('C', p)])
+    def coarse(v):
+        try:
+            return sysworld.observe('x', [('C', v)])
+        except TypeError:          # NumPy leaves: the object-by-object snapshot below covers them
+            return None
+    p_before = coarse(p)
+
+    def exact(v):
+        # the caller's dictionary object by object: which object sits where, of which type, printing how
+        if isinstance(v, dict):
+            return ('D', id(v), type(v).__name__, tuple((k, exact(x)) for k, x in v.items()))
+        if isinstance(v, (list, tuple)):
+            return ('A', id(v), type(v).__name__, tuple(exact(x) for x in v))
+        return ('L', id(v), type(v).__name__, repr(v))
+    p_exact = exact(p)
     with warnings.catch_warnings():
         warnings.simplefilter('ignore')
         try:
@@ -154,8 +171,11 @@ def _work(args):
                 findings.append(('C11.run-raised', f'{type(e).__name__}'))
     if frame_fingerprint(df) != fp_before:
         findings.append(('C11.caller-frame-untouched', f'the caller DataFrame changed (values, dtypes, columns, index or buffers); route {route}, layout {layouts}'))
-    if sysworld.observe('x', [('C', p)]) != p_before:
+    if coarse(p) != p_before:
         findings.append(('C11.caller-dict-untouched', 'the per-call dictionary changed under run()'))
+    elif exact(p) != p_exact:
+        findings.append(('C11.caller-dict-untouched', 'objects of the per-call dictionary were replaced under run() '
+                         '(equal values, other objects or types): ' + str([a for a, b in zip(str(p_exact).split(), str(exact(p)).split()) if a != b][:4])))
     if sysworld.tree(dynamic.AMPYCLOUD_PRMS) != g_before:
         findings.append(('C11.global-untouched', 'the global dictionary changed under run()'))
     return {'k': k, 'req': req, 'ops': [o[0] for o in ops], 'findings': findings,
